@@ -242,11 +242,18 @@ def placements(tier, seed):
                 singles.append((p, 'tc'))
         for p, how in singles:
             ntexts = 2 if tier == 'quick' else 6
+            used = []
             for j in range(ntexts):
                 t = TEXTS[ti % len(TEXTS)]
                 ti += 1
+                used.append(t)
                 out.append(('%s@%s:%s:%r' % (name, '/'.join('%s%d' % x for x in p) or 'root', how, t[:18]),
                             wrap_at(tree, p, how, t)))
+            # every placement also with a short one-line text (so that the enclosing
+            # container still fits on one line: the comment alone must force the break)
+            if not any(len(t) <= 4 and '\n' not in t for t in used):
+                out.append(('%s@%s:%s:%r' % (name, '/'.join('%s%d' % x for x in p) or 'root', how, 'one'),
+                            wrap_at(tree, p, how, 'one')))
         # comment() and trailing_comment() stacked on the same node, both orders
         stacked = [p for p, how in singles if how == 'tc']
         for p in (stacked if tier == 'thorough' else stacked[:3]):
